@@ -96,6 +96,26 @@ def h_string(E, inp):
     return [str(r['ok']), r['msg']]
 
 
+def h_same_expect(E, order):
+    """alternatives that share the same expect value but differ in credit / message are all live"""
+    from mitxgraders import StringGrader
+    c = [E.real('c%d' % i, 0, 1) for i in range(3)]
+    alts = [{'expect': 'cat', 'grade_decimal': c[0], 'msg': 'm'}, {'expect': 'cat', 'grade_decimal': c[1], 'msg': 'mmm'}, {'expect': ('dog', 'cat'), 'grade_decimal': c[2], 'msg': 'mm'}]
+    perm = list(itertools.permutations(range(3)))[order]
+    g = StringGrader(answers=tuple(alts[i] for i in perm))
+    r = g(None, 'cat')
+    best = smax(smax(c[0], c[1]), c[2])
+    E.check('grade-is-maximum', near_eq(r['grade_decimal'], best))
+    lens = [1, 3, 2]
+    if r['msg'] in ('m', 'mmm', 'mm'):
+        i = ['m', 'mmm', 'mm'].index(r['msg'])
+        E.check('reported-has-max-grade', near_eq(c[i], best))
+        E.check('reported-has-longest-message', sand(*[simplies(near_eq(c[j], best), lens[j] <= lens[i]) for j in range(3)]))
+    else:
+        E.check('message-of-an-alternative', False)
+    return r['msg']
+
+
 def h_sub(E, ordered):
     """alternatives inside a list: each list item has two alternative answers"""
     from mitxgraders import SingleListGrader
@@ -126,6 +146,8 @@ def harnesses(tier):
     add(h_alts, 'alts', dict(k=3, wrong=False, reorder=False, full=True), 'credits in [0,1]')
     for inp in ('cat', 'dog', 'eel'):
         add(h_string, 'string', dict(inp=inp), 'StringGrader, 3 alternatives, credits in [0,1]')
+    for order in range(6):
+        add(h_same_expect, 'same_expect', dict(order=order), '3 alternatives sharing an expect value, credits in [0,1]')
     for o in (True, False):
         add(h_sub, 'sublist', dict(ordered=o), 'SingleListGrader items with 2 alternatives each')
     if tier == 'thorough':
